@@ -176,6 +176,9 @@ def gen_opt_config(rng, name, space):
         "RepulsingHillClimbingOptimizer": dict(repulsion_factor=[5, 1, 50]),
         "RandomAnnealingOptimizer": dict(annealing_rate=[0.98, 0.5], start_temp=[10, 1000, 0.1]),
         "GridSearchOptimizer": dict(step_size=[1, 2, 3]),
+        "ForestOptimizer": dict(tree_regressor=["random_forest", "extra_tree", "gradient_boost"], xi=[0.0, 0.3], tree_para=[{"n_estimators": 5}, {"n_estimators": 8}]),
+        "TreeStructuredParzenEstimators": dict(gamma_tpe=[0.1, 0.5, 0.9]),
+        "BayesianOptimizer": dict(xi=[0.0, 0.3]),
     }.get(name, {})
     for k, vals in extra.items():
         if rng.random() < 0.4:
